@@ -273,6 +273,16 @@ func runDirectSort(r *hk.Run, rng *hk.Rand) {
 		}
 		shuffle(rng, kvs)
 		order, shape := genOrder(rng, names)
+		if rng.Chance(8) { // the pseudo-header block: 4 fixed names, any permutation / subset / case in the list
+			kvs = []kvJ{{":authority", []string{"h"}}, {":method", []string{"GET"}}, {":path", []string{"/"}}, {":scheme", []string{"https"}}}
+			order = append([]string(nil), pseudoPerms[i%len(pseudoPerms)]...)[:rng.Range(1, 4)]
+			shape = "pseudo"
+			if rng.Chance(40) {
+				for j := range order {
+					order[j] = recase(rng, order[j])
+				}
+			}
+		}
 		in := make([]header.KeyValues, len(kvs))
 		for j, kv := range kvs {
 			in[j] = header.KeyValues{Key: kv.K, Values: kv.V}
